@@ -99,6 +99,54 @@ c06_mda_history = z3.Function("c06_mda_residual_history", DiscS, I, z3.ArraySort
 c06_mda_history_n = z3.Function("c06_mda_residual_history_len", DiscS, I, I)
 
 
+# ---- scaling setters of the composed MDAs: the inner MDAs are opaque; their scaling method / scaling data are ghost maps
+declare_ghost("c06_mda_scaling", z3.ArraySort(DiscS, StrS))
+declare_ghost("c06_mda_scaling_data", z3.ArraySort(DiscS, ValS))
+
+
+# ---- Newton step: the Jacobian assembly is an opaque value; the disciplines' linearization state is a ghost (point, execute flag)
+AsmS = z3.DeclareSort("C06Assembly")
+
+
+class _TAsm(T):
+    name = "C06Assembly"
+
+    def sort(self):
+        return AsmS
+
+    def embed(self, st, v):
+        if isinstance(v, SV) and v.ty.sort() == AsmS:
+            return v.term
+        raise Unsupported(f"cannot embed {v!r} as a Jacobian assembly")
+
+    def project(self, st, term, origin=None):
+        return SV(term, self, origin)
+
+
+TAsm = _TAsm()
+declare_ghost("c06_lin_m", EXM_S)  # the data a discipline was last linearized at ...
+declare_ghost("c06_lin_v", EXV_S)
+declare_ghost("c06_lin_exec", z3.ArraySort(DiscS, B))  # ... and whether it was executed there before
+_NL = None
+
+
+def names_sort():
+    from .values import TList
+
+    return TList(TStr).sort()
+
+
+def asm_step_fn():
+    """JacobianAssembly.compute_newton_step(in_data, couplings, linear_solver, matrix_type=, residuals=, resolved_residual_names=, **settings)[0] as an
+    uninterpreted function of the assembly, the linearization state of the disciplines and the arguments (its contract is VERIFIED in C07)."""
+    ns = names_sort()
+    return z3.Function("c06_assembly_newton_step", AsmS, EXM_S, EXV_S, z3.ArraySort(DiscS, B), DataM, DataV, ns, StrS, ValS, ValS, ns, ValS, ValS)
+
+
+def asm_residuals_fn():
+    return z3.Function("c06_assembly_residuals", AsmS, EXM_S, EXV_S, DataM, DataV, names_sort(), ValS)
+
+
 def _on(ex):
     return getattr(ex.contract, "c06", False)
 
@@ -171,6 +219,21 @@ class C06Models:
                 return SV(z3.If(tb == 0, c06_div0(a.term), a.term / tb), TNpReal)
         return NotImplemented
 
+    def set_attr(self, ex, obj, attr, v, lineno):
+        if _on(ex) and attr == "scaling" and isinstance(obj, SV) and obj.ty.sort() == DiscS:
+            # `mda.scaling = value` on an opaque inner MDA: the contract of the base setter (verified: BaseMDA.scaling), i.e. the scaling method is
+            # set and the scaling data are reset to None
+            from .values import val_none
+
+            st = ex.st
+            sc, sd = st.ghost_get("c06_mda_scaling", z3.ArraySort(DiscS, StrS)), st.ghost_get("c06_mda_scaling_data", z3.ArraySort(DiscS, ValS))
+            st.ghost_set("c06_mda_scaling", z3.Store(sc, obj.term, TStr.embed(st, v)))
+            st.ghost_set("c06_mda_scaling_data", z3.Store(sd, obj.term, val_none))
+            ex.assumed.add("inner MDAs (opaque): `mda.scaling = s` acts as the verified contract of BaseMDA.scaling's setter states (scaling := s, scaling data := None) "
+                           "on the ghost maps c06_mda_scaling / c06_mda_scaling_data")
+            return None
+        return NotImplemented
+
     def coerce(self, ex, v, t):
         if _is_np(v) and t == TReal:
             return SV(v.term, TReal)
@@ -183,6 +246,10 @@ class C06Models:
     def value_attr(self, ex, obj, attr, lineno):
         if isinstance(obj, SV) and obj.ty is TConv and attr in ("convert_data_to_array",):
             return BoundMethod(obj, None, f"c06conv.{attr}")
+        if isinstance(obj, SV) and obj.ty is TAsm and attr in ("compute_newton_step", "residuals"):
+            return BoundMethod(obj, None, f"c06asm.{attr}")
+        if _on(ex) and isinstance(obj, SV) and obj.ty.sort() == DiscS and type(obj.ty).__name__ == "_TDisc" and attr == "linearize":
+            return BoundMethod(obj, None, "disc.linearize")
         if not _on(ex):
             return NotImplemented
         if getattr(ex.contract, "c06_sequential", False) and isinstance(obj, SV) and obj.ty.sort() == DiscS and attr in ("normed_residual", "residual_history"):
@@ -227,6 +294,34 @@ class C06Models:
             nm = z3.simplify(no.elems[0])
             ex.assumed.add("data converters: convert_data_to_array([name], data) is a deterministic function of (converter, name, data[name]) (KeyError of a missing name not modelled)")
             return SV(c06_value_array(recv.term, nm, do.member[nm], do.vals[nm]), TNd)
+        if name == "c06asm.residuals" and len(args) == 2 and not kwargs:
+            from .values import TList
+
+            do = st.heap[args[0].id] if isinstance(args[0], Ref) else None
+            if not isinstance(do, DictObj) or do.is_empty_literal or do.k != TStr or do.v.sort() != ValS:
+                raise Unsupported("residuals on a mapping that is not str -> value")
+            ex.assumed.add("JacobianAssembly.residuals(in_data, names) (assumed in C07: computed value - prescribed value per name): an uninterpreted function of the assembly, "
+                           "of the points the disciplines were last executed on, and of its arguments")
+            return SV(asm_residuals_fn()(recv.term, st.ghost_get("c06_exec_m", EXM_S), st.ghost_get("c06_exec_v", EXV_S), do.member, do.vals, TList(TStr).embed(st, args[1])), TNd)
+        if name == "c06asm.compute_newton_step" and len(args) == 3 and set(kwargs) <= {"matrix_type", "residuals", "resolved_residual_names", "**"} \
+                and {"matrix_type", "residuals", "resolved_residual_names"} <= set(kwargs):
+            from .gmodels import to_val
+            from .values import TBool, TList, val_none
+
+            data, couplings, solver = args
+            do = st.heap[data.id] if isinstance(data, Ref) else None
+            if not isinstance(do, DictObj) or do.is_empty_literal or do.k != TStr or do.v.sort() != ValS:
+                raise Unsupported("compute_newton_step on a mapping that is not str -> value")
+            nl = TList(TStr)
+            extra = kwargs.get("**")
+            ops = [to_val(ex, kwargs["matrix_type"]), to_val(ex, kwargs["residuals"]), to_val(ex, extra) if extra is not None else val_none]
+            if any(o is None for o in ops):
+                raise Unsupported("compute_newton_step: argument that is no value")
+            step = asm_step_fn()(recv.term, st.ghost_get("c06_lin_m", EXM_S), st.ghost_get("c06_lin_v", EXV_S), st.ghost_get("c06_lin_exec", z3.ArraySort(DiscS, B)),
+                                 do.member, do.vals, nl.embed(st, couplings), TStr.embed(st, solver), ops[0], ops[1], nl.embed(st, kwargs["resolved_residual_names"]), ops[2])
+            ex.assumed.add("JacobianAssembly.compute_newton_step (contract verified in C07: (dR/dy) step = -R): here an uninterpreted function of the assembly, the "
+                           "linearization state of the disciplines and its arguments; the second result (solver converged) is unconstrained")
+            return (SV(step, TNd), SV(st.fresh_const("newton_linear_solver_converged", B), TBool))
         if name == "c06disc.get_output_data" and not args and not kwargs:
             d = recv.term
             em, ev = st.ghost_get("c06_exec_m", EXM_S), st.ghost_get("c06_exec_v", EXV_S)
@@ -241,6 +336,18 @@ class C06Models:
         if not _on(ex):
             return NotImplemented
         st = ex.st
+        if name == "linearize" and len(args) == 1 and set(kwargs) <= {"execute"} and isinstance(args[0], Ref) and isinstance(st.heap[args[0].id], DictObj):
+            src = st.heap[args[0].id]
+            if src.is_empty_literal or src.k != TStr or src.v.sort() != ValS:
+                raise Unsupported("linearize() on a mapping that is not str -> value")
+            e = ex.truth(kwargs.get("execute", True))
+            e = z3.BoolVal(e) if isinstance(e, bool) else e
+            d = recv.term
+            st.ghost_set("c06_lin_m", z3.Store(st.ghost_get("c06_lin_m", EXM_S), d, src.member))
+            st.ghost_set("c06_lin_v", z3.Store(st.ghost_get("c06_lin_v", EXV_S), d, src.vals))
+            st.ghost_set("c06_lin_exec", z3.Store(st.ghost_get("c06_lin_exec", z3.ArraySort(DiscS, B)), d, e))
+            ex.assumed.add("opaque disciplines: linearize(data, execute=e) only records (content of data, e) as the discipline's linearization state; data itself is not modified")
+            return None
         if getattr(ex.contract, "c06_sequential", False) and name == "execute" and len(args) == 1 and not kwargs and isinstance(args[0], Ref) \
                 and isinstance(st.heap[args[0].id], DictObj):
             # an MDA of the sequence: the returned data are an uninterpreted function of (mda, execution epoch, content of the input data)
